@@ -115,12 +115,15 @@ def run_lattice(case):
     text, rows = structure(case["structure"])
     ff = case["ff"]
     base_opts = [f"--ff={ff}"]
+    if case.get("clean"):
+        base_opts = ["--clean"]  # the short cut writes from its own branch
     if case["ffout"]:
         base_opts.append(f"--ffout={case['ffout']}")
-    base = do_run(text, [f"--ff={ff}"], rows)
+    base = do_run(text, base_opts[:1], rows)
     res["evals"] += 1
     seen = set()
-    tagbase = f"{case['structure']}/{ff}/ffout={case['ffout'] or 'none'}"
+    tagbase = (f"{case['structure']}/{'--clean' if case.get('clean') else ff}"
+               f"/ffout={case['ffout'] or 'none'}")
     if base.ok:
         try:
             base_num, base_atoms = numbers(base, [])
@@ -200,6 +203,17 @@ def run_lattice(case):
                 if sig not in seen:
                     seen.add(sig)
                     res["violations"].append({"sig": sig, "detail": {"case": tagbase}})
+            if atoms and kc:
+                missed = {id(a) for a in (r.missed or [])}
+                want = [a.chain_id or "" for a in r.bm.atoms
+                        if id(a) not in missed]
+                if [a["chain"] for a in atoms] != want:
+                    sig = "C09/lattice/chain-column-wrong-with-keep-chain"
+                    if sig not in seen:
+                        seen.add(sig)
+                        res["violations"].append({
+                            "sig": sig, "detail": {"case": tagbase,
+                                                   "opts": opts}})
     return res
 
 
@@ -344,6 +358,9 @@ def enumerate_cases(tier, seed):
                         cases.append({"mode": "dropwater", "ff": ff,
                                       "opts": opts, "where": where,
                                       "seq": seq, "records": records})
+    for st in ("pep_wat", "two_blank", "pep_wide"):
+        cases.append({"mode": "lattice", "structure": st, "ff": "AMBER",
+                      "ffout": None, "clean": True})
     for x in T.AMINO:
         for layout in ("one", "two", "hidden"):
             cases.append({"mode": "neutral", "x": x, "layout": layout})
